@@ -250,7 +250,7 @@ KindsOf == IF Vocab = "int" THEN KindsInt ELSE IF Vocab = "link" THEN KindsLink
          ELSE IF Vocab = "exec" THEN {"callg1", "callg2", "callg3", "calla", "ext", "icall", "icall5", "cb", "jmpi", "switch", "br2", "loop",
                                       "ibin", "alloca", "fbin", "idx", "callg6", "callg7", "gcall", "rblk", "blkv", "blkv12", "blkv20", "blkv4", "callg21", "icall21", "callg22", "callg12", "callg13", "callg14", "fmovm", "lref1", "lref2", "addrcall", "addrld", "bsblk", "callva", "rload", "rcall", "lref3", "alloca3"}
          ELSE IF Vocab = "single" THEN (KindsInt \cup KindsFp \cup {"calla", "callg6", "callg7", "rblk", "blkv", "blkv12", "blkv20", "blkv4", "callg21", "icall21", "callg22", "callg12", "callg13",
-                                                                      "callg14", "icall", "icall5"}) \ {"callg3", "lref1", "lref2", "lref3", "callva"}   \* functions with at most one result
+                                                                      "callg14", "icall", "icall5"}) \ {"callg3", "callva"}   \* functions with at most one result
          ELSE KindsInt \cup KindsFp \cup {"calla", "callg6", "callg7", "rblk", "blkv", "blkv12", "blkv20", "blkv4", "callg21", "icall21", "callg22", "callg12", "callg13", "callg14"}
 NeedFull == {"pld", "pst", "gcall", "pidxst"}
 KindsGlob == IF ~UseG THEN {} ELSE {"gset", "gget", "gadd"} \cup (IF Glob = "calls" THEN {"gcall2"} ELSE {})
